@@ -6,7 +6,10 @@
 EXTENDS World
 CONSTANTS Greetings,      \* subset of {"valid", "invalid", "cut_viable", "cut_bad"}
           Passwords,      \* subset of {"none", "good", "bad"}
-          Auths           \* scripted verdicts: subset of {"ok", "ack", "ack4", "garbage", "eof", "partial"}
+          Auths,          \* scripted verdicts: subset of {"ok", "ack", "ack4", "garbage", "eof", "partial"}
+          Mut             \* "" = as coded; seeded model mutants (vacuity guards for the C18 monitors):
+                          \* "eof_is_ok" (a close instead of the verdict counts as accepted), "skip_verdict" (connected right after
+                          \* writing the password), "accept_invalid" (a malformed greeting line is accepted)
 
 VARIABLES w, pc, g, res
 vars == <<w, pc, g, res>>
@@ -36,10 +39,13 @@ ReadGreeting ==
   /\ pc = "greet" /\ (w.dl > w.rd \/ w.fault = "eof")
   /\ IF w.dl > w.rd THEN
         LET w1 == WRead(w, w.dl - w.rd) IN
-        IF g = "invalid" \/ (g = "cut_bad" /\ w1.rd >= 1) THEN Fail(w1, "invalid")               \* a wrong byte is seen as soon as it is read
+        IF (g = "invalid" /\ Mut # "accept_invalid") \/ (g = "cut_bad" /\ w1.rd >= 1) THEN Fail(w1, "invalid")               \* a wrong byte is seen as soon as it is read
         ELSE IF w1.rd < 2 \/ Cut THEN /\ w' = w1 /\ UNCHANGED <<pc, g, res>>                    \* incomplete: read again
         ELSE IF ~w.hasPw THEN                                                                     \* greeting complete, no password: spawn the loop -> idle
              /\ w' = WConnected(WCliLine(w1, CL("idle", <<>>, FALSE, 0)), TRUE, "", <<"v">>, 1, TRUE, <<"v">>, "")
+             /\ pc' = "done" /\ res' = "ok" /\ UNCHANGED g
+        ELSE IF Mut = "skip_verdict" THEN
+             /\ w' = WConnected(WCliLine(WCliLine(w1, CL("password", w.pw, FALSE, 0)), CL("idle", <<>>, FALSE, 0)), TRUE, "", <<"v">>, 1, TRUE, <<"v">>, "")
              /\ pc' = "done" /\ res' = "ok" /\ UNCHANGED g
         ELSE /\ w' = WCliLine(w1, CL("password", w.pw, FALSE, 0)) /\ pc' = "authwait" /\ UNCHANGED <<g, res>>
      ELSE Fail(WReadEof(w), "io:UnexpectedEof")
@@ -54,6 +60,9 @@ Verdict ==
         ELSE IF w1.rd < rep.end THEN /\ w' = w1 /\ UNCHANGED <<pc, g, res>>
         ELSE IF l.t = "ack" THEN Fail(w1, "incorrect_password")
         ELSE /\ w' = WConnected(WCliLine(w1, CL("idle", <<>>, FALSE, 0)), TRUE, "", <<"v">>, 1, TRUE, <<"v">>, "")
+             /\ pc' = "done" /\ res' = "ok" /\ UNCHANGED g
+     ELSE IF Mut = "eof_is_ok" THEN
+             /\ w' = WConnected(WCliLine(WReadEof(w), CL("idle", <<>>, FALSE, 0)), TRUE, "", <<"v">>, 1, TRUE, <<"v">>, "")
              /\ pc' = "done" /\ res' = "ok" /\ UNCHANGED g
      ELSE Fail(WReadEof(w), "io:UnexpectedEof")
 Next == EDeliver \/ EClose \/ CutClose \/ ReadGreeting \/ Verdict
